@@ -3,6 +3,7 @@ from registry_api import T
 
 FAMILIES = {
     "num": dict(src="num.cpp"),
+    "flt": dict(src="flt.cpp"),
 }
 
 PROPS = {
@@ -23,9 +24,30 @@ PROPS = {
                       "UBSan (-fsanitize=undefined, no recovery) observes signed negation overflow in the real code"],
         assumptions=["LP64: long and long long are 64-bit, int 32-bit, short 16-bit; bases outside 2..36 (0 also for parsing) are outside the documented contract and not generated"],
     ),
+    "C13": dict(
+        family="flt",
+        theorems=[],
+        rule="directed values (+-0, +-inf, NaN with payload/sign variants, subnormal min/max, normal min/max, powers of ten 1e-320..1e308 (float 1e-45..1e38), "
+             "nextafter neighbours, the suite's six values) for double and float x {g,f,e,E} x precision {none,0,1,6,17,40,61,62,100} x sign x width {0,10,80} x "
+             "alignment {default,<,>} x pad, through ST::format (text route) and ST::format_type with a filled-in format_spec (direct route, incl. negative precision/width "
+             "and arbitrary pad bytes), every value through from_float/from_double with all six letters, the default argument and invalid letters, and string_stream <<; "
+             "200 k (thorough 5 M) random bit patterns with a random field each; parsing: every string of length <= 4 (thorough 5, sampled) over an 18-symbol alphabet, "
+             "special numerals, and the %.17g / %a renderings of the directed values through to_double/to_float with and without result vs strtod/strtof called by the harness. "
+             "Each case carries the format string the library really passed to snprintf (recorded by a wrapper macro in the harness), the harness's reference format, and "
+             "libc's rendering of it. non-trivial = every case except the empty string",
+        exhaustive={"quick": False, "thorough": False},
+        partial="libc's rendering (snprintf) and parsing (strtod/strtof) are uninterpreted parameters of the model: what is proved is the library's own glue "
+                "(format assembly, buffers, padding, promotion, letter check, flags); that libc renders a conversion correctly is outside the property",
+        trusted_base=["snprintf/strtod/strtof of this platform's libc as the meaning of 'the C library rendering'; the recording wrapper (a macro in harness/flt.cpp, no source hook)",
+                      "the float -> double promotion is checked against the Lean runtime's Float32.toFloat on every float case"],
+        assumptions=["'C' locale (setlocale in the harness); precision above 1000 is not generated (libc needs the memory for the rendering)"],
+    ),
 }
 
 MANIFEST_TEXT = {
+    "C13": dict(
+        text="(under construction)",
+        design_ref="DESIGN.md section 3, C13", note="see evidence", technique="Lean 4 proof over a hand model + differential correspondence under ASan/UBSan"),
     "C12": dict(
         text="(under construction)",
         design_ref="DESIGN.md section 3, C12", note="see evidence", technique="Lean 4 proof over a hand model + differential correspondence under ASan/UBSan"),
